@@ -39,12 +39,29 @@ fn salt32(seed: u64) -> u32 {
 // ------------------------------------------------------------------------------------------
 // C02: SR / RR
 
+/// List lengths where a count narrowed to 8 or 16 bits wraps back into 0..=31 (256.., 512.., 65536..): more than
+/// 31 blocks / sources / chunks cannot be represented, so the builder must refuse; what it accepts must round-trip.
+pub const WIDE_COUNTS: [usize; 12] = [34, 255, 256, 257, 287, 288, 511, 512, 543, 65_535, 65_536, 65_567];
+pub fn wide_count_space(kind: u64) -> CfgSpace {
+    let name = ["sr-wide-block-counts", "rr-wide-block-counts", "bye-wide-source-counts", "sdes-wide-chunk-counts"][kind as usize];
+    CfgSpace::new(name, 12 * 2, move |idx| {
+        let n = WIDE_COUNTS[(idx % 12) as usize];
+        let pad = if idx / 12 == 0 { 0u8 } else { 8 };
+        match kind {
+            0 => Pkt::Sr { ssrc: 1, ntp: 2, rtp: 3, pc: 4, oc: 5, blocks: (0..n).map(|i| sentinel_rb(i, 0)).collect(), pad },
+            1 => Pkt::Rr { ssrc: 1, blocks: (0..n).map(|i| sentinel_rb(i, 0)).collect(), pad },
+            2 => Pkt::Bye { ssrcs: (0..n as u32).collect(), reason: String::new(), pad },
+            _ => Pkt::Sdes { chunks: (0..n).map(|i| Chunk { ssrc: i as u32, items: vec![] }).collect(), pad },
+        }
+    })
+}
+
 pub fn sr_rr_spaces(tier: Tier, seed: u64) -> Vec<CfgSpace> {
     let salt = salt32(seed);
     let w32 = u32_walk();
     let w64 = u64_walk();
     let w24 = u24_walk();
-    let mut v = Vec::new();
+    let mut v = vec![wide_count_space(0), wide_count_space(1)];
 
     // (1) k-deviation product over the scalar fields and the seven fields of one distinguished block.
     // quick: k<=2 over 12 shapes; thorough: k<=2 over 30 shapes, and k<=3 over 4 shapes (k<=3 over all 30 would be
@@ -258,7 +275,7 @@ fn fill_items(bytes: usize, salt: u64) -> Vec<Item> {
 }
 
 pub fn sdes_spaces(tier: Tier, seed: u64) -> Vec<CfgSpace> {
-    let mut v = Vec::new();
+    let mut v = vec![wide_count_space(3)];
     let s = seed;
 
     // (a) one chunk, two items, all pairs of value lengths
@@ -439,7 +456,8 @@ pub fn bye_spaces(_tier: Tier, seed: u64) -> Vec<CfgSpace> {
         let n = [0usize, 1, 31][((idx / LONG_REASONS) % 3) as usize];
         Pkt::Bye { ssrcs: (0..n as u32).map(|i| 0x0A00_0000 + i).collect(), reason, pad: if idx / LONG_REASONS / 3 == 0 { 0 } else { 8 } }
     }),
-    bye_pattern_space()]
+    bye_pattern_space(),
+    wide_count_space(2)]
 }
 
 /// BYE source lists as patterns over three values (duplicates, equal ends, alternations): every sequence of length
